@@ -357,6 +357,15 @@ impl<'a> Parser<'a> {
         Ok(ESpec::BlockTable { chunks })
     }
 
+    /// Multiply a block size by its unit; a product that does not fit 64 bits is not a size
+    fn scale_size(&self, size: u64, unit: u64) -> Result<u64, ESpecError> {
+        size.checked_mul(unit)
+            .ok_or_else(|| ESpecError::InvalidNumber {
+                position: self.pos,
+                error: "Block size too large".to_string(),
+            })
+    }
+
     /// Parse block size specification
     fn parse_block_size_spec(&mut self) -> Result<BlockSizeSpec, ESpecError> {
         let mut size = self.parse_number()?;
@@ -366,11 +375,11 @@ impl<'a> Parser<'a> {
             match unit {
                 'K' => {
                     self.consume('K')?;
-                    size *= 1024;
+                    size = self.scale_size(size, 1024)?;
                 }
                 'M' => {
                     self.consume('M')?;
-                    size *= 1024 * 1024;
+                    size = self.scale_size(size, 1024 * 1024)?;
                 }
                 'G' | 'T' | 'P' => {
                     return Err(ESpecError::InvalidUnit(unit));
